@@ -20,6 +20,14 @@ def layouts(ctx, inputs, nlayouts):
         rng.shuffle(perm)
         bs = rng.choice([1, 2, 3, 5, 7, len(inputs) // 2 + 1, len(inputs) + 1])
         out.append(("perm bs=%s" % bs, perm, bs, rng.choice([1, 2, 4, 8, 16])))
+    # one worker, one batch, in the given and in the reverse order: everything runs in this process, nothing is pickled afresh
+    n = len(inputs)
+    out.append(("one worker, one batch", list(range(n)), None, 1))
+    out.append(("one worker, one batch, reversed", list(range(n))[::-1], None, 1))
+    # the rejected row first and alone in its batch: a first batch that reports hardly any counter
+    bad = [i for i, x in enumerate(inputs) if x == "xx>>C"]
+    if bad:
+        out.append(("rejected row first, bs=1", bad + [i for i in range(len(inputs)) if i not in bad], 1, 2))
     return out
 
 
@@ -60,7 +68,9 @@ def pick(ctx, n):
     picked = [mix["inputs"][i] for i in idx[:n]]
     # rows whose search finds nothing under every condition (they are dropped from the table of retained conditions), a
     # malformed row and a balanced one, spread over the list: results of the rows after them must not shift
-    for extra in ["N>>CCO", "[Na+].[Cl-]>>CCO", "O>>CCC", "xx>>C", "CC>>CC"]:
+    # (also: a two-fold oxidation ahead of single oxidations — reagent templates are shared data; whatever one row does with
+    # them must not show in another)
+    for extra in ["N>>CCO", "[Na+].[Cl-]>>CCO", "O>>CCC", "xx>>C", "CC>>CC", "CC(O)c1ccccc1>>CC(=O)c1ccccc1", "CCO>>CC=O", "OCCCCO>>O=CCCC=O"]:
         picked.insert(rng.randint(0, max(0, len(picked) - 2)), extra)
     return picked
 
